@@ -74,7 +74,7 @@ IntoArcStatic(h) ==
 \* ---- nodes -------------------------------------------------------------------
 NodeNew(v) ==
   /\ Len(ns) < MaxNodes
-  /\ nallocs' = Append(nallocs, [value |-> v, count |-> 1]) /\ ns' = Append(ns, Len(nallocs) + 1)
+  /\ nallocs' = Append(nallocs, [value |-> v, loc |-> Len(nallocs) + 1, count |-> 1]) /\ ns' = Append(ns, Len(nallocs) + 1)
   /\ UNCHANGED <<allocs, hs>>
 NodeClone(n) ==
   /\ LiveNode(n) /\ Len(ns) < MaxNodes
@@ -88,7 +88,8 @@ MakeMut(n, v) ==         \* copy-on-write: a shared node is copied first, nobody
   /\ LiveNode(n)
   /\ IF nallocs[ns[n]].count = 1
      THEN /\ nallocs' = [nallocs EXCEPT ![ns[n]].value = v] /\ UNCHANGED ns
-     ELSE /\ nallocs' = Append([nallocs EXCEPT ![ns[n]].count = nallocs[ns[n]].count - 1], [value |-> v, count |-> 1])
+     ELSE /\ nallocs' = Append([nallocs EXCEPT ![ns[n]].count = nallocs[ns[n]].count - 1],
+                               [value |-> v, loc |-> nallocs[ns[n]].loc, count |-> 1])       \* the copy keeps the location
           /\ ns' = [ns EXCEPT ![n] = Len(nallocs) + 1]
   /\ UNCHANGED <<allocs, hs>>
 GetMut(n, v) ==          \* get_mut(): Some only for a unique node
@@ -103,5 +104,7 @@ NodeCountIsLiveHandles ==
   \A a \in 1..Len(nallocs) : nallocs[a].count = Cardinality({n \in 1..Len(ns) : ns[n] = a})
 TextIsAllocText == \A h \in 1..Len(hs) : hs[h].kind \in {"heap", "arc"} => hs[h].text = allocs[hs[h].alloc].text
 NeverNegative == \A a \in 1..Len(allocs) : allocs[a].count >= 0     \* (Naturals: a decrement below 0 is a TLC error)
-RcInv == CountIsLiveHandles /\ NodeCountIsLiveHandles /\ TextIsAllocText
+\* the location read through a node handle is the one its original was created with, whatever happened since
+NodeLocationKept == \A a \in 1..Len(nallocs) : nallocs[a].loc \in 1..a
+RcInv == CountIsLiveHandles /\ NodeCountIsLiveHandles /\ TextIsAllocText /\ NodeLocationKept
 =============================================================================
